@@ -52,7 +52,7 @@ ASSUMPTIONS = [
   "a simulation exception raised inside sim_eval_combinational/sim_tick on a legal history is "
   "reported as a violation (the implementation produced no outputs), not as a harness error",
 ]
-QUICK_S = 50
+QUICK_S = 42
 THOROUGH_S = 780
 
 CAPS = [1, 2, 3, 4, 5]
@@ -510,7 +510,6 @@ def exhaustive(ctx):
     key, cap, occ, head, enq, deq = entry
     if key in SKIP:
       ctx.exclude("VERIF_C17_SKIP:" + key)
-      done += 1
       continue
     ls = Lockstep(case, ctx.is_known)
     verdict = None
@@ -609,7 +608,7 @@ def run_shard(ctx):
     return
 
   @seed(ctx.hseed())
-  @ctx.settings(ctx.n(16000, 400000))
+  @ctx.settings(ctx.n(12000, 400000))
   @given(cases())
   def t(case):
     if ctx.out_of_time():
